@@ -127,8 +127,8 @@ def check(run):
     run.samples = [{"sequence": s} for s in seqs[:4]]
     run.coverage.update({"evaluations": evals, "distinct_nontrivial": len(seqs), "traces_validated_against_impl": len(decisions), "exhaustive": run.tier == "thorough",
                          "sequences": len(seqs)})
-    run.assumptions += ["configuration posts are issued one after another (the property's quantifier; the revision test is check-then-act)", "BurntSushi/toml decides what parses",
-                        "WhitelistedOrigins is not part of the snapshot format (cannot be repaired without protoc): listed as known finding"]
+    run.assumptions += ["configuration posts are issued one after another (the property's quantifier; the revision test is check-then-act)", "BurntSushi/toml decides what parses"
+                        ]
     return run.finish(rule="sequences over {valid, invalid TOML, stale, future, missing revision header} interleaved with traffic, snapshot+restart and SIGKILL on the real handlers; oracle: accepted iff valid and current, revision +1, GET /config shows the posted content, rejected posts append nothing, revision stable across restore; thorough: all sequences of length <= 4")
 
 
